@@ -79,21 +79,21 @@ _e("crate::termwidth::termwidth", "extern:terminal_size::terminal_size", "termin
 
 UB = "crate::word_separators::find_words_unicode_break_properties"
 _e(UB, "extern:unicode_linebreak::linebreaks", "unicode_linebreak::linebreaks", ["A-lb"], "total iterator constructor")
-_e(UB + "::{closure#1}", "call:Index::index", "^String,RangeTo{end:{$2.0}}", ["A-lb"],
+_e(UB + "::{closure#1}", "call:Index::index", "^,RangeTo{end:{$2.0}}", ["A-lb"],
    "idx is a break opportunity of `stripped` reported by linebreaks(&stripped): a char boundary in (0, len]")
-_e(UB + "::{closure#2}", "call:Index::index", "^str,Range{start:{^usize},end:{_?Some.0.0}}", ["C11.R2", "C11.R7"],
+_e(UB + "::{closure#2}", "call:Index::index", "^,Range{start:{^},end:{_?Some.0.0}}", ["C11.R2", "C11.R7"],
    "orig_idx is item .0 of line.char_indices() yielded through the index map (closure#0); start is 0 or an earlier "
    "orig_idx of the same increasing iterator")
-_e(UB + "::{closure#2}", "call:Index::index", "^str,RangeFrom{start:{^usize}}", ["C11.R2"],
+_e(UB + "::{closure#2}", "call:Index::index", "^,RangeFrom{start:{^}}", ["C11.R2"],
    "start is 0, an orig_idx of line.char_indices(), or line.len()")
 
 SW = "crate::word_splitters::split_words::{closure#0}::{closure#0}"
-_e(SW, "call:Index::index", "^Word.word,RangeTo{end:{Iterator::next!(_)?Some.0}}", ["C12.R4", "A-custom"],
+_e(SW, "call:Index::index", "^.word,RangeTo{end:{Iterator::next!(_)?Some.0}}", ["C12.R4", "A-custom"],
    "idx comes from split_points(word): hyphen splitter yields match offset + 1 of ASCII '-' (S4); custom "
    "splitters/dictionaries are assumed to return char boundaries (A-custom)")
-_e(SW, "call:Index::index", "^Word.word,Range{start:{^usize},end:{Iterator::next!(_)?Some.0}}", ["C12.R1", "C12.R4", "A-custom"],
+_e(SW, "call:Index::index", "^.word,Range{start:{^},end:{Iterator::next!(_)?Some.0}}", ["C12.R1", "C12.R4", "A-custom"],
    "prev is 0 or an earlier split point; split points are increasing boundaries", max=2)
-_e(SW, "call:Index::index", "^Word.word,RangeFrom{start:{^usize}}", ["C12.R1", "C12.R4", "A-custom"],
+_e(SW, "call:Index::index", "^.word,RangeFrom{start:{^}}", ["C12.R1", "C12.R4", "A-custom"],
    "prev is 0 or a split point <= len under the guard prev < len || prev == 0", max=2)
 
 WS = "crate::wrap::wrap_single_line_slow_path"
@@ -133,8 +133,8 @@ _e(OF, "call:Index::index", "$1,Range{start:{Index::index(smawk::online_column_m
 _e(OF, "loop", "non-iterator", ["A-smawk", "C06.R3"], "pos strictly decreases to 0 (DECREASING)")
 OC = OF + "::{closure#0}"
 _e(OC, "assert:BoundsCheck", "{$3} ; {[]::len($2)}", ["A-smawk"], "smawk calls m(minima, i, j) with minima.len() > i")
-_e(OC, "assert:BoundsCheck", "{$4 k} ; {[]::len(^[])}", ["A-smawk"], "i < j < size = fragments.len() + 1", max=3)
+_e(OC, "assert:BoundsCheck", "{$4 k} ; {[]::len(^)}", ["A-smawk"], "i < j < size = fragments.len() + 1", max=3)
 _e(OC, "assert:Overflow:Add", "{$3} ; {k}", ["A-smawk"], "i < j <= fragments.len()")
 _e(OC, "assert:Overflow:Sub", "{$4} ; {k}", ["A-smawk"], "j > i >= 0", max=3)
-_e(OC, "call:Index::index", "^Vec,$3", ["A-smawk", "C03.R1"], "i < widths.len() = size")
-_e(OC, "call:Index::index", "^Vec,$4", ["A-smawk", "C03.R1"], "j < widths.len() = size")
+_e(OC, "call:Index::index", "^,$3", ["A-smawk", "C03.R1"], "i < widths.len() = size")
+_e(OC, "call:Index::index", "^,$4", ["A-smawk", "C03.R1"], "j < widths.len() = size")
